@@ -76,7 +76,22 @@ type MessageEdgeZero struct{ A int32 }
 
 func (*MessageEdgeZero) GetID() uint32 { return 0 }
 
+// enum fields of every wire type an enum may have, signed ones included, in the base part of a message (in the shipped
+// dialects the only signed enum fields are extensions, which do not take part in CRC_EXTRA)
+type MessageBigEnums struct {
+	Mode    BigEnum `mavenum:"int8"`
+	Cmd     BigEnum `mavenum:"int32"`
+	Flags   BigEnum `mavenum:"uint16"`
+	Wide    BigEnum `mavenum:"uint64"`
+	Medium  BigEnum `mavenum:"uint32"`
+	Small   BigEnum `mavenum:"uint8"`
+	Counter uint8
+	Later   BigEnum `mavenum:"int8" mavext:"true"`
+}
+
+func (*MessageBigEnums) GetID() uint32 { return 0x020000 + 5 }
+
 var bigDialect = &dialect.Dialect{Version: 7, Messages: []message.Message{
 	&MessageBigA{}, &MessageBigB{}, &MessageBigC{}, &MessageBigD{}, &MessageBigSmall{},
-	&MessageEdge254{}, &MessageEdge255{}, &MessageEdge256{}, &MessageEdge65535{}, &MessageEdgeZero{},
+	&MessageBigEnums{}, &MessageEdge254{}, &MessageEdge255{}, &MessageEdge256{}, &MessageEdge65535{}, &MessageEdgeZero{},
 }}
